@@ -121,6 +121,7 @@ def run_case(case):
     ref.initialize()
     ref.run()
     h = Harness(case)
+    bystander = None
     try:
         if case.get("drive") == "after-cleanup":
             # the simulator ran a SHORTER replication of the same model before and was cleaned up: events of that
@@ -140,6 +141,19 @@ def run_case(case):
             h.rec = Recorder()
             case = dict(case, drive="start")
         h.initialize()
+        # another simulator lives in the same process (a second model, a reference run): initialised after this one,
+        # holding two pending events, never run.  Its events are its own, and this one's are this one's.
+        import zlib
+        import json as _json
+        if zlib.crc32(_json.dumps(case, sort_keys=True).encode()) % 3 == 0:
+            from vlib.simharness import Harness as _H
+            by_prog = {"clock": "float", "cap": 10, "rep": {"start": (0.0).hex(), "warmup": (0.0).hex(),
+                                                            "length": (5.0).hex()},
+                       "root": [["rel", (1.0).hex(), 0, 5]], "nodes": [[]]}
+            bystander = _H(by_prog)
+            bystander.initialize()
+            by_size = bystander.sim.eventlist().size()
+            out.label("second-simulator-alive")
         if case.get("drive") == "rut-clock-first":
             # an exclusive bound equal to the clock: events AT the clock are outside that horizon, nothing may run
             t0 = case["rep"]["start"]
@@ -184,7 +198,12 @@ def run_case(case):
         if err is not None:
             out.fail("start-raised", repr(err))
         compare_run(out, h, ref)
+        if bystander is not None and (bystander.sim.eventlist().size() != by_size or bystander.model.trace):
+            out.fail("other-simulator-disturbed", {"pending": [by_size, bystander.sim.eventlist().size()],
+                                                   "executed": bystander.model.trace[:3]})
     finally:
+        if bystander is not None:
+            bystander.finish()
         leaked = h.finish()
     if leaked:
         out.fail("thread-leak", leaked)
